@@ -1383,8 +1383,40 @@ class Interp:
             if not isinstance(k, str):
                 raise Unsupported("dict key not a concrete str")
             frame.env[target.value.id][k] = v
+        elif isinstance(target, ast.Subscript) and isinstance(target.value, ast.Name) and isinstance(frame.env.get(target.value.id), SByteList) \
+                and isinstance(target.slice, ast.Constant) and target.slice.value == 0 and self.owned_list(frame, target.value.id):
+            # lst[0] = v on a symbolic byte list that this function obtained from a call and never aliased: the same value as
+            # [v] + lst[1:] bound to the same name (IndexError on an empty list)
+            old = frame.env[target.value.id]
+            if self.ctx.branch(sym.blen(old.t) == 0, "setitem-empty"):
+                raise Raise("IndexError")
+            frame.env[target.value.id] = self.binop(ast.Add(), [v], SByteList(sym.bdrop(old.t, IV(1))))
         else:
             raise Unsupported("assignment target %s" % type(target).__name__)
+
+    def owned_list(self, frame, name):
+        """syntactic ownership check for in-place mutation of a list held in local `name`: in this function the name is bound only by
+        `name = <call>(args)` whose arguments are not lists, is never the right-hand side of another binding, never stored into an
+        object/container, never returned inside a container, and is not a parameter.  (Callees with contracts are pure; inlined callees are
+        executed, so a retained reference would show up as a heap write.)"""
+        fi = frame.finfo
+        if fi is None or name in {a.arg for a in fi.node.args.args}:
+            return False
+        for n in ast.walk(fi.node):
+            if isinstance(n, (ast.Assign, ast.AnnAssign, ast.AugAssign)):
+                targets = n.targets if isinstance(n, ast.Assign) else [n.target]
+                binds_name = any(isinstance(t, ast.Name) and t.id == name for t in targets)
+                val = n.value
+                if binds_name:
+                    if not isinstance(n, ast.Assign) or not isinstance(val, ast.Call):
+                        return False
+                elif val is not None and any(isinstance(x, ast.Name) and x.id == name for x in ([val] if isinstance(val, ast.Name) else
+                                                                                                   (val.elts if isinstance(val, (ast.Tuple, ast.List, ast.Set)) else
+                                                                                                    (val.values if isinstance(val, ast.Dict) else [])))):
+                    return False          # aliased: another name / container element now refers to the same list
+            if isinstance(n, (ast.Global, ast.Nonlocal, ast.Lambda)) or (isinstance(n, ast.FunctionDef) and n is not fi.node):
+                return False
+        return True
 
     def s_If(self, st, frame):
         c = self.truth(self.eval(st.test, frame))
